@@ -1,0 +1,122 @@
+//go:build verif
+
+package rux
+
+import "reflect"
+
+// This file is only compiled with the build tag "verif". It adds read-only
+// accessors used by the verification harness under /verif. It changes no
+// behaviour of the package.
+
+// VerifKeys returns the cache keys in recency order (most recent first).
+func (c *cachedRoutes) VerifKeys() []string {
+	c.lock.RLock()
+	defer c.lock.RUnlock()
+
+	keys := make([]string, 0, c.list.Len())
+	for e := c.list.Front(); e != nil; e = e.Next() {
+		keys = append(keys, e.Value.(*cacheNode).Key)
+	}
+	return keys
+}
+
+// VerifIndexKeys returns the keys of the cache hash index (unordered).
+func (c *cachedRoutes) VerifIndexKeys() []string {
+	c.lock.RLock()
+	defer c.lock.RUnlock()
+
+	keys := make([]string, 0, len(c.hashMap))
+	for k := range c.hashMap {
+		keys = append(keys, k)
+	}
+	return keys
+}
+
+// VerifCache returns the cache instance of the router (may be nil).
+func (r *Router) VerifCache() *cachedRoutes {
+	return r.cachedRoutes
+}
+
+// VerifCacheKeys returns the router's cache keys in recency order; ok is false
+// when the router has no cache container.
+func (r *Router) VerifCacheKeys() (keys []string, ok bool) {
+	if r.cachedRoutes == nil {
+		return nil, false
+	}
+	return r.cachedRoutes.VerifKeys(), true
+}
+
+// VerifConsts dumps the constants the formal model depends on.
+type VerifConsts struct {
+	AbortIndex     int
+	AnyMethods     []string
+	RESTFulActions map[string][]string
+	GlobalVars     map[string]string
+	AnyMatch       string
+	ContextFields  []string
+	RouterFields   []string
+	RouteFields    []string
+}
+
+// VerifGetConsts returns the constants the formal model depends on.
+func VerifGetConsts() VerifConsts {
+	fields := func(v any) (ns []string) {
+		t := reflect.TypeOf(v)
+		for i := 0; i < t.NumField(); i++ {
+			ns = append(ns, t.Field(i).Name+":"+t.Field(i).Type.String())
+		}
+		return
+	}
+	return VerifConsts{
+		AbortIndex:     int(abortIndex),
+		AnyMethods:     append([]string{}, anyMethods...),
+		RESTFulActions: RESTFulActions,
+		GlobalVars:     globalVars,
+		AnyMatch:       anyMatch,
+		ContextFields:  fields(Context{}),
+		RouterFields:   fields(Router{}),
+		RouteFields:    fields(Route{}),
+	}
+}
+
+// VerifIndex returns the handler cursor of the context.
+func (c *Context) VerifIndex() int { return int(c.index) }
+
+// VerifTier reports in which table a registered route lives:
+// "static", "regular:<first>", "irregular" (one entry per method), for the
+// route registered with the given pointer.
+func (r *Router) VerifTier(rt *Route) (tiers []string) {
+	for k, v := range r.stableRoutes {
+		if v == rt {
+			tiers = append(tiers, "static:"+k)
+		}
+	}
+	for k, rs := range r.regularRoutes {
+		for _, v := range rs {
+			if v == rt {
+				tiers = append(tiers, "regular:"+k)
+			}
+		}
+	}
+	for k, rs := range r.irregularRoutes {
+		for _, v := range rs {
+			if v == rt {
+				tiers = append(tiers, "irregular:"+k)
+			}
+		}
+	}
+	return
+}
+
+// VerifRouteInfo returns the compiled form of a route.
+func (rt *Route) VerifRouteInfo() (start string, regex string, matches []string) {
+	if rt.regex != nil {
+		regex = rt.regex.String()
+	}
+	return rt.start, regex, append([]string{}, rt.matches...)
+}
+
+// VerifGroupState returns the registration-scope state of the router.
+func (r *Router) VerifGroupState() (prefix string, nGroupHandlers int, nGlobal int) {
+	return r.currentGroupPrefix, len(r.currentGroupHandlers), len(r.handlers)
+}
